@@ -25,7 +25,7 @@ func c06LeaderProg(r *rand.Rand, client, n int, big bool) []Cmd {
 		case x < 2:
 			p = append(p, hookCmd(r, g))
 		case x < 3:
-			p = append(p, scriptCmd(r, g))
+			p = appendScript(p, r, scriptCmd(r, g))
 		case x < 9 && big:
 			p = append(p, Cmd{Args: []string{"SET", "kbig", fmt.Sprintf("b%d", r.Intn(6)), "STRING", fmt.Sprintf("v%d-", g.uniq()) + strings.Repeat("x", 50000+r.Intn(30000))}})
 		default:
